@@ -493,11 +493,32 @@ class Sched:
         self._saved_queue = dl.Queue
         sched = self
 
+        import queue as _queue
+
+        claimed = []
+
         class SimQueue:
+            """Completion queue of the simulated compute.  A queue created later from inside a running task belongs to a
+            nested compute (a kernel or a map_blocks function that evaluates something lazy): that one runs inline in its
+            task, as it does under dask's real threaded scheduler, on an ordinary queue."""
+
+            def __init__(self):
+                actor = sched.idents.get(threading.get_ident())
+                if not claimed and (actor is None or actor is sched.main):
+                    claimed.append(self)
+                    self._real = None
+                else:
+                    self._real = _queue.Queue()
+                    sched.sim.count("nested_computes_in_task")
+
             def put(self, item):
+                if self._real is not None:
+                    return self._real.put(item)
                 sched.q_put(item)
 
             def get(self, block=True, timeout=None):
+                if self._real is not None:
+                    return self._real.get(block, timeout)
                 return sched.q_get()
 
         dl.Queue = SimQueue
